@@ -1,7 +1,7 @@
 (* C07 — the wire format matches the published schema and round-trips.
    Property theorems only; each is closed by [exact] of a lemma of the development or of the
    obligations regenerated from /repo on every run (coq/gen/SchemaAgree.v). *)
-Require Import Ommx.Tree Ommx.Schema Ommx.Wire Ommx.Codec Ommx.CodecProof Ommx.CodecEq Ommx.RunC07.
+Require Import Ommx.Tree Ommx.Schema Ommx.Wire Ommx.Codec Ommx.CodecProof Ommx.CodecEq Ommx.CodecAny Ommx.RunC07.
 Require Import OmmxGen.SchemaProto OmmxGen.SchemaRust OmmxGen.SchemaPy OmmxGen.SchemaAgree.
 From Coq Require Import String List NArith ZArith.
 Import ListNotations.
@@ -90,6 +90,31 @@ Theorem C07_codec_unset_oneof : forall sch, wf_schema sch = true ->
               forall n, ~ In n (keys fs) -> ~ In n (keys fs').
 Proof. exact codec_unset_oneof. Qed.
 Print Assumptions C07_codec_unset_oneof.
+
+(* decoding ANY conforming encoding (Tier B): whatever liberties the writer of the bytes took --
+   fields and map entries in any order and interleaving, a repeated scalar given packed, unpacked
+   or as several packed runs, a singular scalar written several times (last wins), a singular
+   message written in several pieces (merged), default values written out or omitted (also map keys
+   and values), unknown fields anywhere, at every nesting level -- the decoder returns the normal
+   form of the value, up to the order of fields and map entries ([veq]); in sorted form ([canon])
+   exactly; and it is what decoding the model encoder's own output returns.  For every schema,
+   value and size. *)
+Theorem C07_decode_any_encoding : forall sch m v bytes fuel,
+  typedb sch true m v = true -> conforming_bytes sch m v bytes -> (depth v <= fuel)%nat ->
+  exists w, decode sch fuel m bytes = Some w /\ veq w (norm sch m v).
+Proof. exact codec_decode_any_encoding. Qed.
+Print Assumptions C07_decode_any_encoding.
+Theorem C07_decode_any_encoding_canon : forall sch, wf_schema sch = true ->
+  forall m v bytes fuel,
+  typedb sch true m v = true -> conforming_bytes sch m v bytes -> (depth v <= fuel)%nat ->
+  exists w, decode sch fuel m bytes = Some w /\ canon w = canon (norm sch m v).
+Proof. exact codec_decode_any_encoding_canon. Qed.
+Print Assumptions C07_decode_any_encoding_canon.
+(* the relation is not vacuous: the model encoder's output conforms *)
+Theorem C07_encode_conforming : forall sch, wf_schema sch = true ->
+  forall m v, typedb sch true m v = true -> conforming_bytes sch m v (encode sch m v).
+Proof. exact encode_conforming. Qed.
+Print Assumptions C07_encode_conforming.
 
 (* the comparator used by the correspondence check is sound: an exact-content verdict certifies
    that the bytes (prost's or protoc's) decode under the published schema to the normal form of
